@@ -273,7 +273,7 @@ func (n *fNatsSubscriberTransport) worker(callback FAsyncCallback) {
 		case msg := <-n.workC:
 			if len(msg.Data) < 4 {
 				logger().Warn("frugal: Discarding invalid scope message frame")
-				return
+				continue
 			}
 			transport := &thrift.TMemoryBuffer{Buffer: bytes.NewBuffer(msg.Data[4:])}
 			if err := callback(transport); err != nil {
